@@ -250,6 +250,7 @@ package jrpc2
 //@   invariant[C08:Q] qlen(fieldaddr(s, inq)) >= 0
 //@   invariant[C09:ids-never-reissued] s.callID == idsIssued(s) + 1
 //@   invariant2[C09:ids-grow] s.callID >= old(s.callID) && idsIssued(s) >= old(idsIssued(s))
+//@   invariant2[C08:removed-only-when-settled] forall(k string, old(in(s.call, k)) && !in(s.call, k) ==> chansends(old(lookup(s.call, k)).ch) >= 1)
 //@   invariant[C09:ids-fresh] forall(n Int, n >= s.callID ==> !in(s.call, itoa(n)))
 
 //@ immutable Server.mux Server.sem Server.allowP Server.log Server.rpcLog Server.newctx Server.builtin Server.mu Server.used Server.call
@@ -338,10 +339,13 @@ package jrpc2
 //@ func (*Server).filterBatchLocked
 //@   requires wfServer(s) && held(s.mu) && Server_mu_inv(s) && forall(i int, 0 <= i && i < len(next) ==> next[i] != nil)
 //@   modifies map(s.call)
+//@   ensures[C08:removed-only-when-settled] forall(k string, old(in(s.call, k)) && !in(s.call, k) ==> chansends(old(lookup(s.call, k)).ch) >= 1)
 //@   ensures[C09:members] len(result) <= len(next) && forall(i int, 0 <= i && i < len(result) ==> result[i] != nil)
 //@   ensures[C09:drop-unmatched] s.allowP ==> forall(i int, 0 <= i && i < len(result) ==> reqShaped(result[i]))
 //@   ensures[C09:inv] Server_mu_inv(s)
 //@   loop 1 invariant Server_mu_inv(s) && len(keep) <= rangeindex + 1
+//@   loop 1 invariant forall(k string, old(in(s.call, k)) && !in(s.call, k) ==> chansends(old(lookup(s.call, k)).ch) >= 1)
+//@   loop 1 invariant forall(k string, in(s.call, k) ==> old(in(s.call, k)) && lookup(s.call, k) == old(lookup(s.call, k)))
 //@   loop 1 invariant forall(i int, 0 <= i && i < len(keep) ==> keep[i] != nil && (s.allowP ==> reqShaped(keep[i])))
 
 // ---------------------------------------------------------------------------
@@ -416,6 +420,7 @@ package jrpc2
 //@   ensures[C08:unlocked] !held(s.mu)
 //@   ensures[C08:dispatcher-or-cause] (result1 == nil) == (result0 != nil)
 //@   loop 1 invariant held(s.mu) && Server_mu_inv(s) && s.callID >= atlock(s.callID)
+//@   loop 1 invariant forall(k string, atlock(in(s.call, k)) && !in(s.call, k) ==> chansends(atlock(lookup(s.call, k)).ch) >= 1)
 
 // Stop / WaitStatus.
 //@ func (*Server).WaitStatus
@@ -483,6 +488,7 @@ package jrpc2
 //@ func (*Server).waitForBarrier
 //@   requires wfServer(s) && held(s.mu) && Server_mu_inv(s) && n >= 0
 //@   modifies monitor(Server, s), wgDebt(fieldaddr(s, nbar))
+//@   ensures[C08:removed-only-when-settled] forall(k string, old(in(s.call, k)) && !in(s.call, k) ==> chansends(old(lookup(s.call, k)).ch) >= 1)
 //@   at call.Add#1 assert[C03:wait-before-add] called("call.Wait#1")
 //@   ensures[C03:relocked] held(s.mu) && Server_mu_inv(s) && s.callID >= old(s.callID)
 //@   ensures[C03:debt] wgDebt(fieldaddr(s, nbar)) == old(wgDebt(fieldaddr(s, nbar))) + n
@@ -525,6 +531,7 @@ package jrpc2
 //@ func (*Server).dispatchLocked
 //@   requires wfServer(s) && held(s.mu) && Server_mu_inv(s) && forall(i int, 0 <= i && i < len(next) ==> next[i] != nil)
 //@   modifies monitor(Server, s), fired, assignCalls, wgDebt(fieldaddr(s, nbar))
+//@   ensures[C08:removed-only-when-settled] forall(k string, old(in(s.call, k)) && !in(s.call, k) ==> chansends(old(lookup(s.call, k)).ch) >= 1)
 //@   fresh result
 //@   ensures[C03:barrier-before-dispatch] called("call.waitForBarrier#1") && result != nil
 //@   ensures[C08:relocked] held(s.mu) && Server_mu_inv(s) && s.callID >= old(s.callID)
@@ -605,6 +612,7 @@ package jrpc2
 //@   at call.encode#1 assert[C09:connected] s.ch != nil
 //@   at go.waitCallback#1 ghostset slotId(rsp.ch) = id
 //@   at go.waitCallback#1 ghostset idsIssued(s) = idsIssued(s) + 1
+//@   at defer.Unlock#1 assert[C08:watcher-has-entry] called("go.waitCallback#1") ==> in(s.call, itoa(s.callID - 1)) && slotOpen(lookup(s.call, itoa(s.callID - 1)))
 //@   at call.FormatInt#1 assume[the callback id counter does not wrap: fewer than 2^62 callbacks per server] s.callID < 4611686018427387904
 //@   ensures[C09:unlocked] !held(s.mu)
 //@   ensures[C09:closed-no-send] !called("call.encode#1") ==> rsp == nil && forall(c Iface, chSends(c) == old(chSends(c)))
@@ -685,6 +693,7 @@ package jrpc2
 //@   invariant[C04:K2-distinct] forall(k1 string, k2 string, in(c.pending, k1) && in(c.pending, k2) && k1 != k2 ==> lookup(c.pending, k1).ch != lookup(c.pending, k2).ch)
 //@   invariant[C04:ids-never-reissued] c.nextID == reqsIssued(c) + 1
 //@   invariant2[C04:ids-grow] c.nextID >= old(c.nextID) && reqsIssued(c) >= old(reqsIssued(c))
+//@   invariant2[C05:removed-only-when-settled] forall(k string, old(in(c.pending, k)) && !in(c.pending, k) ==> chansends(old(lookup(c.pending, k)).ch) >= 1)
 
 //@ immutable Client.done Client.log Client.snote Client.scall Client.chook Client.shook Client.cbctx Client.cbcancel Client.pending
 
@@ -739,6 +748,7 @@ package jrpc2
 //@   ensures[C04:matched-removed] !reqShaped(rsp) ==> !in(c.pending, idKey(rsp.ID))
 //@   ensures[C04:others-untouched] forall(k string, k != idKey(rsp.ID) ==> in(c.pending, k) == old(in(c.pending, k)) && lookup(c.pending, k) == old(lookup(c.pending, k)))
 //@   ensures[C05:debts] wgDebt(c.done) == old(wgDebt(c.done))
+//@   ensures[C05:removed-only-when-settled] forall(k string, old(in(c.pending, k)) && !in(c.pending, k) ==> chansends(old(lookup(c.pending, k)).ch) >= 1)
 
 // req: allocates the next id under the lock; the counter only grows.
 //@ func (*Client).req
@@ -801,6 +811,7 @@ package jrpc2
 //@   loop 1 invariant forall(i int, 0 <= i && i < len(pends) ==> pctxs[i] != nil)
 //@   loop 1 invariant forall(i1 int, i2 int, 0 <= i1 && i1 < i2 && i2 < len(pends) ==> pends[i1].ch != pends[i2].ch && pends[i1] != pends[i2])
 //@   loop 2 invariant held(fieldaddr(c, mu)) && Client_mu_inv(c) && c.nextID >= atlock(c.nextID) && reqsIssued(c) >= atlock(reqsIssued(c))
+//@   loop 2 invariant forall(k string, atlock(in(c.pending, k)) ==> in(c.pending, k))
 
 // waitComplete: when the context ends, completes the request only if its entry
 // is still pending (removed first, then the single slot write, whose error is
@@ -868,6 +879,8 @@ package jrpc2
 //@   modifies monitor(Client, c), held(fieldaddr(c, mu)), wgDebt(c.done)
 //@   ensures[C05:done-paid] wgDebt(c.done) == 0 && !held(fieldaddr(c, mu))
 //@   loop 1 invariant held(fieldaddr(c, mu)) && Client_mu_inv(c) && wgDebt(c.done) == 1 && c.nextID >= atlock(c.nextID) && reqsIssued(c) >= atlock(reqsIssued(c))
+//@   loop 1 invariant forall(k string, atlock(in(c.pending, k)) && !in(c.pending, k) ==> chansends(atlock(lookup(c.pending, k)).ch) >= 1)
+//@   loop 1 invariant forall(k string, in(c.pending, k) ==> atlock(in(c.pending, k)) && lookup(c.pending, k) == atlock(lookup(c.pending, k)))
 
 // Close: stops (first cause wins), runs the OnStop thunk outside the lock, and
 // returns only after every goroutine tracked by c.done has paid its Done.
